@@ -40,7 +40,12 @@ ByName(ps, n)  == ps[CHOOSE i \in 1..Len(ps) : ps[i].name = n]
 Cl(name, slot, ok) == <<name, slot, ok>>
 
 \* ---- parse clauses (C01-C05, C08, C18) --------------------------------------
+\* a slot / return entry that an earlier (already reported) failure left in a state outside the vocabulary:
+\* the hop relation says nothing about it, so it is not judged again
+Corrupt(b) == b.typ = "other" \/ b.def \in {"other", "codeQ"} \/ b.dbase = "other" \/ b.dann = "diff"
+
 SlotClauses(k, dd, b, a) ==
+  IF Corrupt(b) THEN << >> ELSE
   << Cl("TypKept", b.name, a.typ \in A_Typ(k, b)),
      Cl(IF b.def = "absent" THEN "DefaultFill" ELSE "DefaultKept", b.name, a.def \in A_Def(k, dd, b)),
      Cl("ProseKept.base", b.name, a.dbase = b.dbase),
@@ -49,7 +54,7 @@ SlotClauses(k, dd, b, a) ==
 
 RetClauses(k, dd, b, a) ==
   << Cl("RetKept.present", "return", a.present \in R_Present(k, b)) >> \o
-  (IF a.present /\ b.present
+  (IF a.present /\ b.present /\ ~Corrupt(b)
      THEN << Cl("RetKept.typ", "return", a.typ \in R_Typ(k, b)),
              Cl("RetKept.def", "return", a.def \in R_Def(k, dd, b)),
              Cl("RetKept.base", "return", a.dbase = b.dbase),
@@ -73,7 +78,7 @@ ParseClauses(e) ==
                    \o SlotClauses(k, dd, b.params[i], ByName(a.params, b.params[i].name))
               ELSE << Cl("NamePresent", b.params[i].name, FALSE) >>])
       \o RetClauses(k, dd, b.ret, a.ret)
-      \o (IF last.kind = k /\ last.dd = dd /\ last.irn >= 1
+      \o (IF last.kind = k /\ last.dd = dd /\ last.irn >= 2     \* third and later passes: parse(t3) = parse(t2)
             THEN << Cl("IrStable", "-", a = b) >> ELSE << >>)
       \o (IF ref.set THEN << Cl("ConfigTransparent", "-", a = ref.ir) >> ELSE << >>)
 
